@@ -208,6 +208,28 @@ def run(tier):
                 res.ok(key, "R-PROV", "%s uses the requested index" % what)
             else:
                 res.violation(key, "%s: the %s does not use the requested index" % (nm, what), where="%s:%s" % (fn.file, fn.line), rule="R-PROV")
+        # the auxiliary-data map is keyed by transaction index: no element of it may be selected by *position* (nth, values,
+        # slice get/index, skip/take/zip/enumerate ...) — a positional fast path pairs a transaction with another key's data
+        POSITIONAL = re.compile(r"::(nth|nth_back|values|into_values|skip|take|step_by|zip|enumerate|first|last|get_unchecked|split_at|chunks|windows|rev|last_key_value|first_key_value|pop_first|pop_last)$"
+                                r"|^core::slice::get$|^core::slice::index::|Index::index$|^alloc::vec::.*::index$")
+        bodies = [fn] + list(P.closure_children(fn))
+        pos_hits = []
+        for g in bodies:
+            for bi, t in g.calls():
+                if not t["args"]:
+                    continue
+                ch = flow.arg_chain(g, t, 0)
+                if ch is None or "auxiliary_data_set" not in ch[1]:
+                    continue
+                name = flow.callee_name(t)
+                if POSITIONAL.search(name):
+                    pos_hits.append(name.split("::")[-1])
+        key = "aux-keyed-only:%s" % nm
+        if pos_hits:
+            res.violation(key, "%s selects auxiliary data by position (%s) instead of by its transaction-index key: a transaction can be paired with the auxiliary data of another index" % (nm, ", ".join(sorted(set(pos_hits)))),
+                          where="%s:%s" % (fn.file, fn.line), rule="R-PROV")
+        else:
+            res.ok(key, "R-PROV", "auxiliary_data_set is only searched by key")
         # success = !(index in invalid_transactions), decided per return path of the tabulated function so that the combinator
         # spelling (`!opt.map(|x| x.contains(..)).unwrap_or(false)`) and the match / if spellings are all accepted
         key = "success-negation:%s" % nm
